@@ -691,3 +691,60 @@ Section BoundedInstances.
     unfold disk_dir_names. rewrite map_length. lia.
   Qed.
 End BoundedInstances.
+
+(* ---------- visit_trace is visit_roots with its trace ---------- *)
+
+Section VisitTrace.
+  Variable is_repo : string -> bool.
+  Variable git_new : loader -> string -> res loader.
+
+  Lemma visit_trace_spec fs bases fuel : forall l,
+    class_of (visit_roots is_repo git_new fuel fs bases l) = snd (visit_trace is_repo git_new fuel fs bases l) /\
+    (forall rs, visit_roots is_repo git_new fuel fs bases l = Ok rs ->
+                fst (visit_trace is_repo git_new fuel fs bases l) = rs).
+  Proof.
+    induction fuel as [|f IH]; intros l; [split; [reflexivity|discriminate]|].
+    cbn [visit_roots visit_trace].
+    set (goR := fix go (ps : list string) : res (list string) :=
+           match ps with
+           | [] => Ok []
+           | p :: t =>
+               match new_root is_repo git_new fs l p with
+               | Ok l2 => do a <- visit_roots is_repo git_new f fs bases l2; do b <- go t; Ok (a ++ b)
+               | Err => Err
+               | Panic => Panic
+               | Diverge => Diverge
+               end
+           end).
+    set (goT := fix go (ps : list string) : list string * oclass :=
+           match ps with
+           | [] => ([], COk)
+           | p :: t =>
+               match new_root is_repo git_new fs l p with
+               | Ok l2 =>
+                   let (a, ca) := visit_trace is_repo git_new f fs bases l2 in
+                   match ca with
+                   | COk => let (b, cb) := go t in ((a ++ b)%list, cb)
+                   | _ => (a, ca)
+                   end
+               | r => ([], class_of r)
+               end
+           end).
+    assert (G : forall ps, class_of (goR ps) = snd (goT ps) /\ (forall rs, goR ps = Ok rs -> fst (goT ps) = rs)).
+    { induction ps as [|p t IHt]; [split; [reflexivity|intros rs H; inv H; reflexivity]|].
+      cbn [goR goT]. destruct (new_root is_repo git_new fs l p) as [l2| | |]; try (split; [reflexivity|discriminate]).
+      destruct (IH l2) as [Hc Ht].
+      destruct (visit_trace is_repo git_new f fs bases l2) as [a ca]. cbn [fst snd] in *.
+      destruct (visit_roots is_repo git_new f fs bases l2) as [a0| | |]; cbn [class_of] in Hc; subst ca; cbn [bind];
+        try (split; [reflexivity|discriminate]).
+      specialize (Ht a0 eq_refl). subst a0.
+      destruct IHt as [Hc2 Ht2]. destruct (goT t) as [b cb]. cbn [fst snd] in *.
+      destruct (goR t) as [b0| | |]; cbn [class_of] in Hc2; subst cb; cbn [bind];
+        try (split; [reflexivity|discriminate]).
+      specialize (Ht2 b0 eq_refl). subst b0. split; [reflexivity|]. intros rs H. inv H. reflexivity. }
+    destruct (G (bases (l_root l))) as [Hc Ht]. destruct (goT (bases (l_root l))) as [rs c]. cbn [fst snd] in *.
+    destruct (goR (bases (l_root l))) as [rs0| | |]; cbn [class_of] in Hc; subst c; cbn [bind];
+      try (split; [reflexivity|discriminate]).
+    specialize (Ht rs0 eq_refl). subst rs0. split; [reflexivity|]. intros x H. inv H. reflexivity.
+  Qed.
+End VisitTrace.
